@@ -10,6 +10,7 @@ import (
 	"strings"
 	"sync"
 	"testing"
+	"time"
 	"unicode/utf8"
 
 	"github.com/zmap/zlint/v3"
@@ -495,6 +496,11 @@ func registerSameName() {
 			Lint: func() lint.RevocationListLintInterface { return lateCRL{} }})
 		lint.RegisterOcspResponseLint(&lint.OcspResponseLint{LintMetadata: lint.LintMetadata{Name: "e_verif_same_name", Description: "the OCSP lint of that name", Citation: "ocsp", Source: lint.RFC6960},
 			Lint: func() lint.OcspResponseLintInterface { return lateOCSP{} }})
+		// lints whose window uses sentinel dates far outside the calendar of X.509 (year 10000, before year 0, the largest Unix time)
+		for i, d := range [][2]time.Time{{time.Date(10000, 1, 1, 0, 0, 0, 0, time.UTC), {}}, {{}, time.Unix(1<<62, 0)}, {time.Date(-1, 1, 1, 0, 0, 0, 0, time.UTC), time.Date(12000, 1, 1, 0, 0, 0, 0, time.UTC)}} {
+			lint.RegisterCertificateLint(&lint.CertificateLint{LintMetadata: lint.LintMetadata{Name: fmt.Sprintf("e_verif_far_dates_%d", i), Description: "far dates", Citation: "x", Source: lint.Community, EffectiveDate: d[0], IneffectiveDate: d[1]},
+				Lint: func() lint.CertificateLintInterface { return lateLint{} }})
+		}
 	})
 }
 
